@@ -65,6 +65,24 @@ def strings(tier, rng):
                 yield s
 
 
+def documented_pattern():
+    """The pattern the translator found in the user guide (recorded in Gen/Regexes.v)."""
+    import os
+    for line in open(os.path.join(C.VERIF, "coq", "theories", "Gen", "Regexes.v"), encoding="utf-8"):
+        if line.startswith("(* documented extraction regex: ") and line.rstrip().endswith(" *)"):
+            return line.rstrip()[len("(* documented extraction regex: "):-3]
+    return None
+
+
+def doc_number(ans, s):
+    """Number read by the documented regex when its match starts at offset 0 (else None)."""
+    f = ans.split()
+    if len(f) != 5 or f[1] != "0" or not f[3].isdigit():
+        return None
+    t = s[int(f[3]):int(f[4])]
+    return int(t) if t.isdigit() and t.isascii() and int(t) <= U32 else None
+
+
 def msg_ok_for_literal(s):
     return '"' not in s and "\\" not in s and "\n" not in s
 
@@ -93,6 +111,30 @@ def run(rep, tier, seed, model_ok):
                           {"kind": "extract", "string": s, "impl": got, "expected": want})
         if model is not None and model[i] != impl[i]:
             corr_bad.append((s, impl[i], model[i]))
+    # the documented regex, run by the regex crate itself and by the model (unanchored search):
+    # ties Model/Regex.v's `captures re_documented` (theorems C12_documented_regex*) to the library
+    pat = documented_pattern()
+    if pat is None:
+        rep.not_shown("documented regex: pattern not found in Gen/Regexes.v", "translator output has no documented regex")
+    else:
+        dlines = ["docregex\t%s\t%s" % (h1.hexs(pat), h1.hexs(s)) for s in all_s]
+        dimpl = h1.impl_only(dlines)
+        dmodel = h1.model_only(dlines) if model_ok else None
+        ddist = {"match_at_0": 0, "match_later": 0, "none": 0}
+        for i, s in enumerate(all_s):
+            f = dimpl[i].split()
+            ddist["none" if len(f) < 3 else ("match_at_0" if f[1] == "0" else "match_later")] += 1
+            tok = TOKEN_RE.match(s)
+            if tok and s.startswith("[ref: %d]" % int(tok.group(1))) and int(tok.group(1)) <= U32:
+                # a token as Breadlog renders it: the documented regex must read the same number at offset 0
+                if doc_number(dimpl[i], s) != int(tok.group(1)):
+                    rep.violation("documented regex %r on the inserted token %r answers %r, not the number at offset 0"
+                                  % (pat, s, dimpl[i]), {"kind": "docregex", "pattern": pat, "string": s,
+                                                         "impl": dimpl[i], "expected": int(tok.group(1))})
+            if dmodel is not None and dmodel[i] != dimpl[i]:
+                corr_bad.append((s, dimpl[i], dmodel[i]))
+        rep.extra["documented_regex_distribution"] = ddist
+        rep.extra["documented_regex_pattern"] = pat
     rep.sample({"extract": all_s[len(all_s) // 2], "expected": oracle(all_s[len(all_s) // 2])})
     rep.sample({"extract": "[ref: 4294967295] x", "expected": U32})
 
@@ -141,6 +183,10 @@ def replay(path):
         out = h1.impl_only(["extract\t%s" % h1.hexs(r["string"])])
         print("implementation:", out[0], " expected by the rule:", oracle(r["string"]))
         return 0 if (out[0].split()[1] == ("none" if oracle(r["string"]) is None else str(oracle(r["string"])))) else 1
+    if r.get("kind") == "docregex":
+        out = h1.impl_only(["docregex\t%s\t%s" % (h1.hexs(r["pattern"]), h1.hexs(r["string"]))])
+        print("regex crate:", out[0], " expected number at offset 0:", r.get("expected"))
+        return 0 if doc_number(out[0], r["string"]) == r.get("expected") else 1
     if r.get("kind") == "entries":
         out = h1.impl_only(["entries\t0\tlog=info\t%s" % h1.hexs(r["file"])])
         print("implementation:", out[0], " expected reference:", r.get("expected"))
